@@ -60,7 +60,7 @@ inductive SpeciesArg where
   deriving Repr
 
 /-- `RDNetwork.get_species_index` (labels = the species labels in order); `none` ↦ the accessors raise -/
-def speciesIndex (labels : List String) : SpeciesArg → Option Nat
+def trajSpeciesIndex (labels : List String) : SpeciesArg → Option Nat
   | .idx i => if i ≥ 0 ∧ i < labels.length then some i.toNat else none
   | .label s => let k := labels.findIdx (· == s); if k < labels.length then some k else none
   | .obj s => let k := labels.findIdx (· == s); if k < labels.length then some k else none
@@ -137,7 +137,7 @@ structure TrajCtx where
   space : SpaceKind
 
 def TrajCtx.species (cx : TrajCtx) (sp : SpeciesArg) : Res Nat :=
-  match speciesIndex cx.labels sp with
+  match trajSpeciesIndex cx.labels sp with
   | none => .error .badValue
   | some s => .ok s
 
@@ -167,24 +167,33 @@ def TrajCtx.getTrajectory (cx : TrajCtx) (sp : SpeciesArg) (p : PosArg) (merge :
 
 /-! ### sample-index lookup -/
 
-/-- `for i in range(n-1): if cond(t[i], t[i+1]): return ret(i)`; falling off the loop returns `None` -/
-def lookupLoop (cond : Rat → Rat → Bool) (ret : Nat → Rat → Rat → Option Nat) : Nat → List Rat → Option Nat
+/-- `for i in range(n-1): if cond(t[i], t[i+1]): return ret(i)`; falling off the loop returns `None`.
+A returned value is `(walk, index)`: `walk` = the code passes the index through `_first_sample_with_same_time`. -/
+def lookupLoop (cond : Rat → Rat → Bool) (ret : Nat → Rat → Rat → Option (Bool × Nat)) : Nat → List Rat → Option (Bool × Nat)
   | _, [] => none
   | _, [_] => none
   | i, a :: b :: r => if cond a b then ret i a b else lookupLoop cond ret (i + 1) (b :: r)
 
-def lookupWith (pre : Nat → Rat → Rat → Rat → Option (Option Nat)) (cond : Rat → Rat → Rat → Bool)
-    (ret : Nat → Rat → Rat → Rat → Option Nat) (ts : List Rat) (t : Rat) : Option Nat :=
+def lookupWith (pre : Nat → Rat → Rat → Rat → Option (Option (Bool × Nat))) (cond : Rat → Rat → Rat → Bool)
+    (ret : Nat → Rat → Rat → Rat → Option (Bool × Nat)) (ts : List Rat) (t : Rat) : Option (Bool × Nat) :=
   match pre ts.length t (ts.headD 0) (ts.getLastD 0) with
   | some r => r
   | none => lookupLoop (cond t) (fun i => ret i t) 0 ts
 
+/-- `_first_sample_with_same_time(i)`: `while i>0 and t[i-1]==t[i] : i -= 1 ; return i` -/
+def firstSame (ts : List Rat) : Nat → Nat
+  | 0 => if firstSameCond 0 (ts.getD 0 0) (ts.getD 0 0) then 0 else 0     -- `i > 0` fails; nothing is read
+  | i + 1 => if firstSameCond ((i + 1 : Nat) : Int) (ts.getD i 0) (ts.getD (i + 1) 0) then firstSame ts i else i + 1
+
+/-- the index finally returned -/
+def finish (ts : List Rat) (r : Bool × Nat) : Nat := if r.1 then firstSame ts r.2 else r.2
+
 /-- `_get_sample_index_closest(t)` -/
-def sampleClosest (ts : List Rat) (t : Rat) : Option Nat := lookupWith closestPre closestCond closestRet ts t
+def sampleClosest (ts : List Rat) (t : Rat) : Option Nat := (lookupWith closestPre closestCond closestRet ts t).map (finish ts)
 /-- `_get_sample_index_infeq(t)` -/
-def sampleInfeq (ts : List Rat) (t : Rat) : Option Nat := lookupWith infeqPre infeqCond infeqRet ts t
+def sampleInfeq (ts : List Rat) (t : Rat) : Option Nat := (lookupWith infeqPre infeqCond infeqRet ts t).map (finish ts)
 /-- `_get_sample_index_supeq(t)` -/
-def sampleSupeq (ts : List Rat) (t : Rat) : Option Nat := lookupWith supeqPre supeqCond supeqRet ts t
+def sampleSupeq (ts : List Rat) (t : Rat) : Option Nat := (lookupWith supeqPre supeqCond supeqRet ts t).map (finish ts)
 
 /-- the query time as given by the caller -/
 inductive TimeArg where
